@@ -4,6 +4,7 @@ import re
 from .mirutil import *
 from .mirsym import Interp, Poly, Term, Agg, Ptr, Opaque, ListIt, enumerate_paths, Unanalysable, PanicReached, deref
 from . import procmodel, execmodel
+from .facts import strip_targs
 
 LEVEL = "other"
 CONSEQ = r"Process::(execute_code_block|execute_op|end_\w+_block|execute_\w+_block)$|Decoder::repeat$"
@@ -387,6 +388,59 @@ def r3b_locals_wrapper(ctx, F):
         ctx.violation("locals-wrapper-paths", fn.loc(), "compile_procedure must wrap exactly when num_locals > 0; paths: %s" % seen)
 
 
+# ---- R4: exec.<local> names the procedure it was written against -----------------------------------------------------------------
+def r4_local_proc_index(ctx, F):
+    """`exec.foo` / `call.foo` / `procref.foo` are lowered to the index stored with `foo` in ParserContext::local_procs, and the
+    assembler takes that index as the position in the module's compiled procedures, which are the local procedures sorted by
+    index.  Both agree only if the index stored at insertion is the number of local procedures inserted before - i.e. the value
+    of local_procs.len() at that point, unmodified."""
+    PC = r"ParserContext"
+    nsites = 0
+    for fn in F.fns.values():
+        if not fn.id.startswith("miden_assembly::ast::parsers::context::"):
+            continue
+        for bi, cal, t in fn.calls():
+            if not re.search(r"BTreeMap::insert$", strip_targs(cal)) or len(t["args"]) < 3:
+                continue
+            recv = def_rvalue(fn, t["args"][0])
+            if not (recv is not None and recv["k"] == "ref" and place_ends_with_field(recv.get("p", {}), PC, "local_procs")):
+                continue
+            nsites += 1
+            ctx.inst(key="local_procs.insert@%s" % short(fn.id), nontrivial=True)
+            val = def_rvalue(fn, t["args"][2])
+            ok, why = False, "the inserted value is not an (index, procedure) tuple"
+            if val is not None and val["k"] == "agg" and val.get("ak") == "tuple" and len(val["ops"]) == 2:
+                idx = resolve_copy(fn, val["ops"][0])          # follows copies and integer casts of single-definition locals
+                dc = def_call(fn, idx)
+                if dc is not None and re.search(r"(TryFrom::try_from|TryInto::try_into|Result::unwrap|Result::expect)$", strip_targs(dc[2]["f"].get("fn", ""))):
+                    dc = def_call(fn, resolve_copy(fn, dc[2]["args"][0]))
+                if dc is None:
+                    why = "the index stored with a local procedure is a computed value, not local_procs.len() at the time of insertion"
+                elif not re.search(r"BTreeMap::len$", strip_targs(dc[2]["f"].get("fn", ""))):
+                    why = "the index stored with a local procedure comes from %s" % short(dc[2]["f"].get("fn", "?"))
+                else:
+                    r2 = def_rvalue(fn, dc[2]["args"][0])
+                    ok = r2 is not None and r2["k"] == "ref" and place_ends_with_field(r2.get("p", {}), PC, "local_procs")
+                    why = "the index is the length of another collection"
+                    if ok and not fn.dominates(dc[1], bi):
+                        ok, why = False, "local_procs.len() is not evaluated on the way to this insertion"
+            ctx.oblig(ok)
+            if not ok:
+                ctx.violation("local-proc-index|%s" % short(fn.id), fn.loc(t["ln"]), "%s: %s; exec/call/procref of a local procedure would then resolve to a different compiled procedure" % (short(fn.id), why))
+    ctx.floor("local_procs-insertions", nsites, 1)
+    # consumer side: the vector of procedures is the map's values sorted by that index
+    srt = [f for f in F.fns.values() if re.search(r"^miden_assembly::ast::sort_procs_into_vec$", f.id)]
+    ctx.inst(key="sort_procs_into_vec", nontrivial=True)
+    ok = len(srt) == 1 and any(re.search(r"sort_by_key$|sort_unstable_by_key$|sort_by_cached_key$", strip_targs(c)) for b, c, t in srt[0].calls())
+    if ok:
+        keyf = [g for g in F.fns.values() if g.id.startswith(srt[0].id + "::{closure")]
+        # the key closure returns field 0 of the (index, procedure) pair
+        ok = any({f for l, f in g.backward_slice(0)["fields"]} == {"0"} for g in keyf)
+    ctx.oblig(ok)
+    if not ok:
+        ctx.violation("local-proc-order", "assembly/src/ast/mod.rs", "sort_procs_into_vec must order the local procedures by their stored index (position in the vector = index used by exec)")
+
+
 def run(ctx, F):
     ctx.trusted += ["rustc MIR via mirfacts", "mirsym"]
     ctx.assumptions += ["decides the shape of the executors and of the lowering, not the behaviour of nested programs as a whole"]
@@ -394,3 +448,4 @@ def run(ctx, F):
     ctx.run_rule("C06-R2", "executor shape (path model): split children under the right value, join order, loop iteration protocol, call target, start_* first, end_* exactly once and last on success", r2_executor_shape, F)
     ctx.run_rule("C06-R3", "compile_body: new_split(true_case, false_case) in that order, new_loop(body), repeat pushes `times` clones", r3_lowering, F)
     ctx.run_rule("C06-R3b", "compile_procedure wraps bodies with locals in Push(n) FmpUpdate ... Push(-n) FmpUpdate", r3b_locals_wrapper, F)
+    ctx.run_rule("C06-R4", "exec/call/procref of a local procedure: the index stored with a procedure at parsing is local_procs.len() at insertion and the module's procedures are sorted by that index, so the index names the procedure it was written against", r4_local_proc_index, F)
